@@ -182,6 +182,8 @@ impl EchoIncPayloadAnsCreator {
 
     /// Fill payload and properly mutate this as required.
     pub fn payload(&mut self, data: &[u8]) -> &mut Self {
+        // an answer longer than the maximum payload is truncated (TS009)
+        let data = &data[..data.len().min(EchoIncPayloadAnsPayload::max_len())];
         self.data[1..=data.len()].iter_mut().zip(data.iter()).for_each(|(dst, &src)| {
             *dst = src.wrapping_add(1);
         });
